@@ -27,13 +27,13 @@ type scell struct {
 }
 
 var strictTags = map[string]string{"json": "application/json", "vendor": "application/vnd.api+json", "text": "text/plain",
-	"form": "application/x-www-form-urlencoded", "multipart": "multipart/form-data", "other": "application/octet-stream",
+	"form": "application/x-www-form-urlencoded", "multipart": "multipart/form-data", "mprelated": "multipart/related", "other": "application/octet-stream",
 	"wild": "image/*", "tagwild": "application/*+json", "none": ""}
 
 func strictCells() []scell {
 	var out []scell
 	n := 0
-	for _, tag := range []string{"json", "vendor", "text", "form", "multipart", "other", "wild", "tagwild", "none"} {
+	for _, tag := range []string{"json", "vendor", "text", "form", "multipart", "mprelated", "other", "wild", "tagwild", "none"} {
 		for _, status := range []string{"200", "4XX", "default"} {
 			for _, hdrs := range [][]string{nil, {"X-A", "X-N"}} {
 				for _, ref := range []bool{false, true} {
@@ -174,7 +174,7 @@ func shapeValue(code, typ string, val map[string]any) any {
 
 func isStructDecl(d string) bool { return strings.HasPrefix(d, "struct") }
 
-var coqTag = map[string]string{"json": "TJson", "vendor": "TJson", "text": "TText", "form": "TForm", "multipart": "TMultipart", "other": "TOther", "wild": "TOther", "tagwild": "TJson"}
+var coqTag = map[string]string{"json": "TJson", "vendor": "TJson", "text": "TText", "form": "TForm", "multipart": "TMultipart", "mprelated": "TMultipart", "other": "TOther", "wild": "TOther", "tagwild": "TJson"}
 
 func coqCell(c scell) string {
 	fs := "None"
@@ -258,7 +258,7 @@ func runC12(r *Report, rng *rand.Rand, thorough bool) {
 						val["Body"] = map[string]any{"a": []string{"x", "a b&c"}[rng.Intn(2)], "n": rng.Intn(100)}
 					case "text":
 						val["Body"] = []string{"hello", "ü text", ""}[rng.Intn(3)]
-					case "multipart":
+					case "multipart", "mprelated":
 						val["Body"] = map[string]string{"f": "v" + fmt.Sprint(rng.Intn(9))}
 					case "other", "wild":
 						val["Body"] = "raw-bytes-" + fmt.Sprint(rng.Intn(99))
@@ -443,8 +443,8 @@ func runC12(r *Report, rng *rand.Rand, thorough bool) {
 			if bt, _, err := mime.ParseMediaType(gotCT); err == nil && bt == wantCT {
 				ctOK = true // parameters such as charset do not change the media type
 			}
-			if m.cell.Tag == "multipart" {
-				ctOK = strings.HasPrefix(gotCT, "multipart/form-data; boundary=")
+			if m.cell.Tag == "multipart" || m.cell.Tag == "mprelated" {
+				ctOK = strings.HasPrefix(gotCT, m.cell.CT+"; boundary=")
 			}
 			if m.cell.Tag == "none" {
 				ctOK = true
@@ -480,7 +480,7 @@ func runC12(r *Report, rng *rand.Rand, thorough bool) {
 				if err != nil || q.Get("a") != b["a"].(string) || q.Get("n") != fmt.Sprint(b["n"]) {
 					problems = append(problems, fmt.Sprintf("form body %q, want %v", res.RespBody, b))
 				}
-			case "multipart":
+			case "multipart", "mprelated":
 				if !strings.Contains(res.RespBody, val["Body"].(map[string]string)["f"]) {
 					problems = append(problems, "multipart body lacks the field")
 				}
@@ -512,8 +512,8 @@ func runC12(r *Report, rng *rand.Rand, thorough bool) {
 				if bt, _, err := mime.ParseMediaType(gotCT); err == nil && !strings.Contains(wantCT, ";") {
 					ct = bt
 				}
-				if m.cell.Tag == "multipart" {
-					ct = "multipart/form-data"
+				if m.cell.Tag == "multipart" || m.cell.Tag == "mprelated" {
+					ct = m.cell.CT
 				}
 				if m.cell.Tag == "text" {
 					ct = "text/plain"
@@ -532,5 +532,5 @@ func runC12(r *Report, rng *rand.Rand, thorough bool) {
 	vcases.WriteTo(r)
 	bcases.WriteTo(r)
 	r.Exhaustive = true
-	r.Rule = "response cells: media type {application/json, vendor +json, text/plain, form, multipart, octet-stream, image/* (wildcard), application/*+json (tagged wildcard), no content} x status {200, 4XX, default} x headers {none, two} x {inline, component reference}, each returned by a recording strict handler of each of the 7 frameworks with generated values (and with / without a strict middleware); observed status, Content-Type, headers and body vs the declaration and vs the model in Coq; handler error -> error path; request side: JSON (+charset), form, text, multipart, octet-stream and multi-body operations x Content-Types incl. undeclared, path/query/header parameters in the request object; non-trivial = not the plain JSON 200 cell"
+	r.Rule = "response cells: media type {application/json, vendor +json, text/plain, form, multipart/form-data, multipart/related, octet-stream, image/* (wildcard), application/*+json (tagged wildcard), no content} x status {200, 4XX, default} x headers {none, two} x {inline, component reference}, each returned by a recording strict handler of each of the 7 frameworks with generated values (and with / without a strict middleware); observed status, Content-Type, headers and body vs the declaration and vs the model in Coq; handler error -> error path; request side: JSON (+charset), form, text, multipart, octet-stream and multi-body operations x Content-Types incl. undeclared, path/query/header parameters in the request object; non-trivial = not the plain JSON 200 cell"
 }
